@@ -459,7 +459,11 @@ pub fn names(tr: &mut Tr, rng: &mut SmallRng) -> u64 {
     let mut tests = 0;
     tr.reset();
     let mut all: Vec<Codes> = vec![Codes::Unary, Codes::Gamma, Codes::Delta, Codes::Omega, Codes::VByteBe, Codes::VByteLe];
-    let params: Vec<usize> = (0..=64).chain([1000, 1 << 32, usize::MAX]).collect();
+    // 0..=64, every power of two up to 2^20 with its neighbours, and large values
+    let mut params: Vec<usize> = (0..=64).chain([1000, 1 << 32, usize::MAX]).collect();
+    for i in 7..=20 {
+        params.extend([(1usize << i) - 1, 1usize << i, (1usize << i) + 1]);
+    }
     for &k in &params {
         all.push(Codes::Zeta { k });
         all.push(Codes::Pi { k });
